@@ -20,9 +20,9 @@ CLAIMS = {
   "C03": claim("Frames.tla (SegIndep) / TraceFrames.tla incl. a relational check between segmentations of one body: " + PIPE,
       "TLC proves on the bounded scenario set that the reader design yields the whole-wire oracle's outcome under every segmentation; every segmentation of small bodies (as TLC paths), adversarial and random segmentations of all design-check bodies and both EOF placements run on the real client and handler; each trace (every read, every API result) must be a behaviour of Frames.tla and two segmentations of one body must end alike.",
       "The scripted io.Reader honours io.Reader's contract.", "6 C03"),
-  "C04": claim("Frames.tla (OnlyTerminatorIsSuccess, HandlerCleanEnd, PrefixOfSent) / TraceFrames.tla: " + PIPE,
-      "Every cut offset of every design-check body x {clean EOF, unexpected EOF, transport error} x gRPC trailers present/absent x three protocols x both sides x stream- and unary-shaped APIs is executed on the real code; a trace is accepted only if the result (clean end or coded error, delivered ids a prefix of the sent ones) is what Frames.tla allows.",
-      "Cut offsets are exhaustive over abstract frame sizes and scaled for compressed / terminator frames. Write-side faults belong to the call-level checks.", "6 C04"),
+  "C04": claim("Frames.tla (OnlyTerminatorIsSuccess, HandlerCleanEnd, PrefixOfSent) + SendSide.tla (write side) / TraceFrames.tla, TraceSendSide.tla: " + PIPE,
+      "Every cut offset of every design-check body x {clean EOF, unexpected EOF, transport error} x gRPC trailers present/absent x three protocols x both sides x stream- and unary-shaped APIs is executed on the real code; a trace is accepted only if the result (clean end or coded error, delivered ids a prefix of the sent ones) is what Frames.tla allows. HTTPClient.Do failing outright. Write side: a transport that consumes exactly k bytes of the request body and then fails, for every k x RPC kind x protocol: the results of every Send and of the call's final operation must be what SendSide.tla allows (never success for an unconsumed message, a coded error at the end, nothing blocks).",
+      "Cut offsets are exhaustive over abstract frame sizes and scaled for compressed / terminator frames.", "6 C04"),
   "C05": claim("Wire.tla (WellFormed) / TraceWire.tla with the raw exchange tokenised by an independent reference codec: " + PIPE,
       "Every response the real handler writes and every request the real client writes in the scenarios of C01/C02/C08/C11 is parsed by the harness' own strict codec (own envelope parser, protowire decoding of Status/Any, own percent / base64 / JSON handling); grammar problems (status count and placement, end-of-stream envelope, content-type echo, flag without encoding header, unary error JSON under the code's status) fail the trace and the decoded content must equal what the application supplied.",
       "The converse direction (peer-encoded input with all legal casings / paddings) is covered for responses by C06's scenarios; a dedicated generator is future work.", "6 C05"),
@@ -54,7 +54,7 @@ CLAIMS = {
       "TLC checks the call design (duplexHTTPCall + transport + handler program) for every client program within the bounds; client programs enumerated as TLC paths (Gen_Call.tla, no application-level circular wait) x handler programs x protocols run against a real loopback HTTP/2 server; each operation under a watchdog; the recorded call / return events must be a behaviour of Call.tla with transport, server and handler inferred as silent steps; afterwards no labelled goroutine may be inside the library and the response body must have been closed; body closing for rejected responses is checked in C06's runs.",
       "The environment half of Call.tla is a superset model of net/http of the Go toolchain in this sandbox.", "6 C14"),
   "C15": claim("Call.tla / TraceCall.tla: cancellation and expiry as model actions at every instant",
-      "cancel() and deadline expiry before the call, between any two operations and during a blocked operation (fired 40 ms into it) x client programs x handler programs (incl. a handler that stalls until its context ends and returns the context's error) x protocols x {bidi, server-streaming, client-streaming API} over loopback HTTP/2 (and HTTP/1.1 for the half-duplex kinds); every operation that fails afterwards must return canceled / deadline_exceeded (a Send may report the stream-closed EOF), never success or another code.",
+      "cancel() and deadline expiry before the call, between any two operations and during a blocked operation (fired 40 ms into it) x client programs x handler programs (incl. a handler that stalls until its context ends and returns the context's error) x protocols x {bidi, server-streaming, client-streaming API} over loopback HTTP/2 (and HTTP/1.1 for the half-duplex kinds); every operation that fails afterwards must return canceled / deadline_exceeded (a Send may report the stream-closed EOF), never success or another code. Byte-level instants: the context ending at every byte offset of every response body of the Frames design check (Frames.tla tails ctxc / ctxd) and when the transport has consumed exactly k bytes of the request (SendSide.tla), scripted transports.",
       "The environment half of Call.tla is a superset model of net/http of the Go toolchain in this sandbox; 'during' means 40 ms into a blocked operation.", "6 C15"),
   "C16": claim("Options.tla (DeclarationOrder, ExactlyOnce) / TraceOptions.tla: " + PIPE,
       "Every option tree (lists of up to 3 / 4 distinct interceptors with nil anywhere, every composition into WithInterceptors groups, groups wrapped in WithOptions / WithClientOptions / WithHandlerOptions, outer group, empty WithInterceptors()) x {client, handler} x {unary, stream} is built with the real constructors, applied twice, and one real call is made; the recorded order of every layer (entry, exit, send, receive) must be the onion Options.tla computes.",
